@@ -401,19 +401,31 @@ CLAIMED = {
             "Trusted: Lean kernel; the tower spec as the definition of Fp12; constants read from the running library and checked; gt_exp* are "
             "judged on target-group elements only; BLS12-381 runs in the p381 configuration; other embedding degrees not covered (PARTIAL); known finding F33.",
             "DESIGN.md §S.2 (C12)"),
-    "C04": ("Lean 4 theorems for the algebra around the pairing (final exponentiation lands in the r-torsion and is multiplicative, multi-pairing = "
-            "product, bilinearity/non-degeneracy on generators extend to the groups) + per-line decision of bilinearity, non-degeneracy, order and "
-            "identity behaviour of the library's pairing values with all group arithmetic done by the Lean specification",
+    "C04": ("Lean 4 theorems about the final exponentiation AS CODED (chains regenerated from the C text on every run) and about the Miller-loop "
+            "structure as coded, executed by the driver on every presented line; theorems for the algebra around the pairing; per-line decision "
+            "of bilinearity, non-degeneracy, order and identity behaviour of the library's pairing values with all group arithmetic done by the "
+            "Lean specification",
             "PARTIAL by nature: bilinearity of the Miller-loop pairings is NOT proved (divisor theory is not available in Mathlib); it is decided "
             "on every presented line: the library prints e(P,Q) and e(aP,bQ) for the variants pc_map, Tate, Weil, optimal ate on BN-P256, "
             "SM9-P256 and BLS12-381, the driver verifies with its own arithmetic that the operands are the stated multiples, e(aP,bQ) = e(P,Q)^(ab) in Fp12, "
             "e(P,Q)^r = 1, e(P,Q) != 1 for non-identity operands, identity in a slot gives 1, and multi-pairings (length 0..5, identities at "
-            "arbitrary positions, equal/opposite operands) equal the product of the individual pairings. Proved in Lean (6 theorems): "
-            "x^((q-1)/r) has order dividing r in a finite field; the final exponentiation is multiplicative and a multi-pairing is the product; "
-            "bilinearity on integer multiples of the generators gives additivity in each slot, identity slots pair to 1, and with r prime and "
-            "e(g1,g2) of order r the pairing is non-degenerate on the generated groups.",
-            "Trusted: Lean kernel; tower spec as the definition of Fp12; Miller loops, line functions and final-exponentiation chains are not "
-            "modelled; BLS12-381 runs in the p381 configuration; the k = 8, 16, 18, 24 families are not covered.",
+            "arbitrary positions, equal/opposite operands) equal the product of the individual pairings. CLASS A: the final exponentiation — "
+            "pp_exp_bn / pp_exp_sm9 / pp_exp_b12 / pp_exp_k12 / fp12_conv_cyc are translated from the C text on every run (tools/translate_pp.py), "
+            "proved = f^(c (p^12-1)/r) with c = 2x(6x^2+3x+1) / 1 / 3 for every integer x, gcd(c, r) = 1 for every x, easy part in the cyclotomic "
+            "subgroup of any field with p^12 elements; fp12_exp_cyc_sps hand model proved = exponentiation by the denoted integer; all executed by "
+            "the driver on arbitrary field elements and compared with the plain power. CLASS A, Miller loops: pp_mil_k12 / pp_mil_lit_k12 / "
+            "pp_fin_k12_oatep / pp_map_(sim_)oatep,tatep,weilp_k12 hand models proved to compute the canonical Miller recurrence for the integer "
+            "the digits denote (running point [s]Q, multi-loop = product of single loops) over an abstract Miller algebra, executed over E(Fp12) "
+            "with affine lines and compared with the library's pairing values after the final exponentiation. CLASS A, line functions: "
+            "pp_dbl/add_k12_projc_basic/_lazyr, pp_dbl/add_lit_k12 (general-b branch) translated from the C text on every run "
+            "(tools/translate_ppline.py), proved: sparse element = (factor in the field of the twist) x affine tangent/chord coefficients, point "
+            "update = curve law; executed by the driver (exact equality with the library incl. slot placement). CLASS C: the b = 2 branch of the "
+            "doubling, EP_ADD = BASIC line functions, compressed squarings (abstracted). Proved in Lean: 6 theorems of Props/C04.lean "
+            "(x^((q-1)/r) has order dividing r in a finite field; final exponentiation multiplicative, multi-pairing = product; bilinearity / "
+            "identity slots / non-degeneracy extend from the generators) + 27 of Props/C04B.lean + 11 generated obligations.",
+            "Trusted: Lean kernel; tower spec as the definition of Fp12; tools/translate_pp.py, tools/translate_ppline.py; lazy reduction and "
+            "compressed squarings abstracted to field operations on values; BLS12-381 runs in the p381 configuration; the k = 8, 16, 18, 24 "
+            "families are not covered.",
             "DESIGN.md §S.2 (C04)"),
 }
 
